@@ -73,6 +73,7 @@ type envState struct {
 	pointHits   map[string]int
 	crashWindow int
 	crashCommits bool
+	recycleKeys  bool
 	acked       bool
 }
 
